@@ -9,6 +9,7 @@ from hsverif import localnames
 root = sys.argv[1] if len(sys.argv) > 1 else "/repo"
 out = {}
 units = {}
+spell = {}
 for dp, dn, fs in os.walk(os.path.join(root, "happysimulator")):
     dn[:] = sorted(d for d in dn if d != "__pycache__")
     for f in sorted(fs):
@@ -20,6 +21,12 @@ for dp, dn, fs in os.walk(os.path.join(root, "happysimulator")):
             if rec:
                 out[rel] = rec
             units[rel] = sorted({q for q, _ in localnames.units(tree)})
+            from hsverif import normalize
+            sp = {q: normalize.spelling_record(fn) for q, fn in localnames.units(tree)}
+            sp = {q: v for q, v in sp.items() if v["cmp"] or v["aug"] or v["if"]}
+            if sp:
+                spell[rel] = sp
 out["__units__"] = units
+out["__spellings__"] = spell
 json.dump(out, open(localnames.REF_PATH, "w"), indent=0, sort_keys=True)
 print(len(units), "modules,", sum(len(v) for v in units.values()), "functions ->", localnames.REF_PATH)
